@@ -12,6 +12,7 @@ import (
 	"os"
 	"reflect"
 	"strings"
+	"sync"
 	"testing"
 
 	"github.com/ovh/kmip-go"
@@ -41,7 +42,9 @@ func bigOf(n int64) *big.Int { return big.NewInt(n) }
 func u32(n uint32) []byte { return []byte{byte(n >> 24), byte(n >> 16), byte(n >> 8), byte(n)} }
 
 func enumItem(tag int, v uint32) *refwire.Item { return &refwire.Item{Tag: tag, Type: 5, Raw: u32(v)} }
-func textItem(tag int, s string) *refwire.Item { return &refwire.Item{Tag: tag, Type: 7, Raw: []byte(s)} }
+func textItem(tag int, s string) *refwire.Item {
+	return &refwire.Item{Tag: tag, Type: 7, Raw: []byte(s)}
+}
 func structItem(tag int, kids ...*refwire.Item) *refwire.Item {
 	return &refwire.Item{Tag: tag, Type: 1, Kids: kids}
 }
@@ -227,6 +230,13 @@ func TestDispatch(t *testing.T) {
 		}
 	}
 	skipped := 0
+	type opTuple struct {
+		bin      []byte
+		dir      int
+		wantType string
+		op       kmip.Operation
+	}
+	var tuples []opTuple
 	for i, c := range cases {
 		var probs []string
 		codes := []int{c.Code}
@@ -286,6 +296,8 @@ func TestDispatch(t *testing.T) {
 				}
 				if got := reflect.TypeOf(pl).String(); got != wantType {
 					probs = append(probs, fmt.Sprintf("wrong-type:0x%08X:got=%s:want=%s", uint32(code), got, wantType))
+				} else if c.Enc == "ttlv" && c.Expect == "typed" {
+					tuples = append(tuples, opTuple{bin: bin, dir: c.Dir, wantType: wantType, op: op})
 				}
 				if pl.Operation() != op {
 					probs = append(probs, fmt.Sprintf("payload-reports-operation:0x%08X:instead-of:0x%08X", uint32(pl.Operation()), uint32(code)))
@@ -492,5 +504,60 @@ func TestDispatch(t *testing.T) {
 			out.Emit(map[string]any{"case": i, "c": c, "problems": probs})
 		}
 	}
-	out.Emit(map[string]any{"summary": true, "cases": len(cases), "skipped": skipped})
+	// dispatch is a function of the message alone: the same messages decoded by many goroutines at once, each in another order,
+	// must give the payload types the sequential pass gave
+	conc := 0
+	if len(tuples) > 1 {
+		var wg sync.WaitGroup
+		var mu sync.Mutex
+		seen := map[string]bool{}
+		const G, rounds = 16, 60
+		for g := 0; g < G; g++ {
+			wg.Add(1)
+			go func(g int) {
+				defer wg.Done()
+				for r := 0; r < rounds; r++ {
+					for k := range tuples {
+						t := tuples[(k*(g+1)+g+r)%len(tuples)]
+						var target any = new(kmip.RequestMessage)
+						if t.dir != 1 {
+							target = new(kmip.ResponseMessage)
+						}
+						problem := ""
+						func() {
+							defer func() {
+								if rr := recover(); rr != nil {
+									problem = "panic:" + vh.PanicSig(rr)
+								}
+							}()
+							if err := ttlv.UnmarshalTTLV(t.bin, target); err != nil {
+								problem = fmt.Sprintf("concurrent-decode-error:0x%08X:%v", uint32(t.op), err)
+								return
+							}
+							var pl kmip.OperationPayload
+							if t.dir == 1 {
+								pl = target.(*kmip.RequestMessage).BatchItem[0].RequestPayload
+							} else {
+								pl = target.(*kmip.ResponseMessage).BatchItem[0].ResponsePayload
+							}
+							if pl == nil || reflect.TypeOf(pl).String() != t.wantType || pl.Operation() != t.op {
+								problem = fmt.Sprintf("concurrent-wrong-type:0x%08X:got=%T:want=%s", uint32(t.op), pl, t.wantType)
+							}
+						}()
+						if problem != "" {
+							mu.Lock()
+							if !seen[problem] {
+								seen[problem] = true
+								out.Emit(map[string]any{"case": -1, "c": DispatchCase{Kind: "op", Code: int(t.op), Dir: t.dir, Enc: "ttlv", Expect: "typed"}, "problems": []string{problem}})
+							}
+							mu.Unlock()
+						}
+					}
+				}
+			}(g)
+		}
+		wg.Wait()
+		conc = G * rounds * len(tuples)
+	}
+	out.Emit(map[string]any{"summary": true, "cases": len(cases), "skipped": skipped, "concurrent_decodes": conc})
 }
